@@ -279,6 +279,9 @@ type C06 struct {
 	updated    map[uint64]bool
 	expUpdated int
 	samples    []interface{}
+	// the allowed-denom list as governance's successful messages left it (seeded from the first state seen)
+	allowGhost map[string]bool
+	listOps    int
 }
 
 func NewC06() *C06 {
@@ -393,11 +396,26 @@ func (m *C06) AfterTx(e *eng.Engine, t *eng.TxRec) {
 		return
 	}
 	pre, post := t.Pre.V(), t.Post.V()
+	if m.allowGhost == nil {
+		m.allowGhost = map[string]bool{}
+		for d := range pre.AllowedDenoms {
+			m.allowGhost[d] = true
+		}
+	}
 	for i, msg := range t.Msgs {
 		switch x := msg.(type) {
+		case *markettypes.MsgAddAllowedDenom:
+			m.allowGhost[x.BankDenom] = true
+			m.listOps++
+		case *markettypes.MsgRemoveAllowedDenom:
+			delete(m.allowGhost, x.Denom)
+			m.listOps++
 		case *markettypes.MsgSell:
 			for j, o := range x.Orders {
 				m.denomGates++
+				if !m.allowGhost[o.AskPrice.Denom] {
+					e.Violate("C06", "denom-not-allowed", fmt.Sprintf("%s: Sell order %d created with ask denom %s which governance's successful add/remove messages leave not allowed", where, j, o.AskPrice.Denom))
+				}
 				if pre.AllowedDenoms[o.AskPrice.Denom] == nil && !allowedEarlierInTx(t, i) {
 					e.Violate("C06", "denom-not-allowed", fmt.Sprintf("%s: Sell order %d created with ask denom %s which was not on the allowed list", where, j, o.AskPrice.Denom))
 				}
@@ -413,6 +431,9 @@ func (m *C06) AfterTx(e *eng.Engine, t *eng.TxRec) {
 				}
 				if u.NewAskPrice != nil {
 					m.denomGates++
+					if !m.allowGhost[u.NewAskPrice.Denom] {
+						e.Violate("C06", "denom-not-allowed", fmt.Sprintf("%s: sell order %d updated to ask denom %s which governance's successful add/remove messages leave not allowed", where, o.Id, u.NewAskPrice.Denom))
+					}
 					if pre.AllowedDenoms[u.NewAskPrice.Denom] == nil && !allowedEarlierInTx(t, i) {
 						e.Violate("C06", "denom-not-allowed", fmt.Sprintf("%s: sell order %d updated to ask denom %s which was not on the allowed list", where, o.Id, u.NewAskPrice.Denom))
 					}
@@ -451,6 +472,18 @@ func (m *C06) AfterTx(e *eng.Engine, t *eng.TxRec) {
 			}
 		}
 	}
+	for d := range post.AllowedDenoms {
+		if !m.allowGhost[d] {
+			e.Violate("C06", "allow-list-diverged", fmt.Sprintf("%s: denom %s is in the allowed-denom table but governance's successful add/remove messages leave it not allowed", where, d))
+			m.allowGhost[d] = true // report once
+		}
+	}
+	for d := range m.allowGhost {
+		if post.AllowedDenoms[d] == nil {
+			e.Violate("C06", "allow-list-diverged", fmt.Sprintf("%s: denom %s was added by governance and never removed but is missing from the allowed-denom table", where, d))
+			delete(m.allowGhost, d)
+		}
+	}
 	if len(m.samples) < 3 && len(post.OrderList) > 0 {
 		o := post.OrderList[len(post.OrderList)-1]
 		_, _, esc := post.BalOf(obs.Addr(o.Seller), o.BatchKey)
@@ -474,6 +507,7 @@ func (m *C06) Finish(e *eng.Engine, cov map[string]interface{}) {
 	cov["_keys"] = sortedStr(m.nontrivial)
 	cov["rule"] = "one evaluation = scan of SellOrder/Market/BatchBalance after genesis, every BeginBlock and every DeliverTx: escrow[seller,batch] == Σ open order quantities exactly, order well-formedness, FK to batch and market; allowed-denom gate checked against the pre-state at every successful Sell/UpdateSellOrders; non-trivial = distinct (seller,batch) that went through >=4 distinct transition kinds while >=2 of its orders were open"
 	cov["allowed_denom_gates_checked"] = m.denomGates
+	cov["allow_list_changes_tracked"] = m.listOps
 	cov["updates_of_partially_filled_orders"] = m.updPartial
 	cov["expiries_of_updated_orders"] = m.expUpdated
 	kinds := map[string]int{}
